@@ -1,8 +1,10 @@
 import PedalModel.DriverLoop
+import PedalModel.Sections
 open Pedal
 
-/- Line-protocol driver for C17: replace the stub dispatch with the model's request handlers. -/
 def dispatch : List String → String
+  | "sections" :: ts => Sections.handle ts
+  | "split" :: ts => Sections.handleSplit ts
   | _ => "bad-request"
 
 def main : IO Unit := driverMain dispatch
